@@ -30,6 +30,10 @@ func AppHeaderMiddleware(userPlans map[string]models.UserPlan, next http.Handler
 			utils.Encode(w, http.StatusBadRequest, map[string]string{"error": "missing X-User-Id or X-Plan-Id headers"})
 			return
 		}
+		if !validUserId(appHeaders.UserId) {
+			utils.Encode(w, http.StatusBadRequest, map[string]string{"error": "invalid X-User-Id header"})
+			return
+		}
 		log.Debug().Interface("appHeaders", appHeaders).Msg("AppHeaderMiddleware")
 		// ---------------------------
 		newCtx := context.WithValue(r.Context(), appHeadersKey, appHeaders)
@@ -43,6 +47,14 @@ func AppHeaderMiddleware(userPlans map[string]models.UserPlan, next http.Handler
 		newCtx = context.WithValue(newCtx, userPlanKey, userPlan)
 		next.ServeHTTP(w, r.WithContext(newCtx))
 	})
+}
+
+// The user id names the directory under which the user's shards are stored.
+// The path elements "." and ".." would resolve to the data directory of another
+// user (whose id equals one of this user's collection names) or escape the
+// data directory altogether, so they cannot be user ids.
+func validUserId(userId string) bool {
+	return userId != "." && userId != ".."
 }
 
 func GetAppHeaders(ctx context.Context) AppHeaders {
